@@ -392,6 +392,8 @@ pub fn run_shard(spec: &ShardSpec, cur: Option<&str>, trace: Option<(u64, String
         ("e1" | "e2", "map", "zst") => run_generic::<MapWorld<()>>(spec, cur, trace),
         ("e1" | "e2", "map", "zd") => run_generic::<MapWorld<crate::elem::Zd>>(spec, cur, trace),
         ("e1" | "e2", "map", "big") => run_generic::<MapWorld<crate::elem::Big>>(spec, cur, trace),
+        ("e1" | "e2", "map", "pod") => run_generic::<MapWorld<crate::elem::Pod>>(spec, cur, trace),
+        ("e1" | "e2", "set", "pod") => run_generic::<SetWorld<crate::elem::Pod>>(spec, cur, trace),
         ("e1" | "e2", "set", "big") => run_generic::<SetWorld<crate::elem::Big>>(spec, cur, trace),
         ("e1" | "e2", "set", "zd") => run_generic::<SetWorld<crate::elem::Zd>>(spec, cur, trace),
         ("e1" | "e2", "set", "u32") => run_generic::<SetWorld<u32>>(spec, cur, trace),
@@ -410,6 +412,8 @@ pub fn replay_shard(spec: &ShardSpec, hist: &[Op], quiet: bool) -> Result<(), (u
         ("map", "zst") => engine::replay_verbose::<MapWorld<()>>(&cfg, hist, quiet),
         ("map", "zd") => engine::replay_verbose::<MapWorld<crate::elem::Zd>>(&cfg, hist, quiet),
         ("map", "big") => engine::replay_verbose::<MapWorld<crate::elem::Big>>(&cfg, hist, quiet),
+        ("map", "pod") => engine::replay_verbose::<MapWorld<crate::elem::Pod>>(&cfg, hist, quiet),
+        ("set", "pod") => engine::replay_verbose::<SetWorld<crate::elem::Pod>>(&cfg, hist, quiet),
         ("set", "big") => engine::replay_verbose::<SetWorld<crate::elem::Big>>(&cfg, hist, quiet),
         ("set", "zd") => engine::replay_verbose::<SetWorld<crate::elem::Zd>>(&cfg, hist, quiet),
         ("set", "u32") => engine::replay_verbose::<SetWorld<u32>>(&cfg, hist, quiet),
@@ -427,6 +431,8 @@ pub fn transcript_shard(spec: &ShardSpec, hist: &[Op]) -> String {
         ("map", "zst") => engine::transcript_of::<MapWorld<()>>(&cfg, hist),
         ("map", "zd") => engine::transcript_of::<MapWorld<crate::elem::Zd>>(&cfg, hist),
         ("map", "big") => engine::transcript_of::<MapWorld<crate::elem::Big>>(&cfg, hist),
+        ("map", "pod") => engine::transcript_of::<MapWorld<crate::elem::Pod>>(&cfg, hist),
+        ("set", "pod") => engine::transcript_of::<SetWorld<crate::elem::Pod>>(&cfg, hist),
         ("set", "big") => engine::transcript_of::<SetWorld<crate::elem::Big>>(&cfg, hist),
         ("set", "zd") => engine::transcript_of::<SetWorld<crate::elem::Zd>>(&cfg, hist),
         ("set", "u32") => engine::transcript_of::<SetWorld<u32>>(&cfg, hist),
